@@ -17,8 +17,8 @@ import gen_tables
 PROP = "C11"
 FINDINGS = {1: "region-not-clamped", 2: "line-number-nonpositive", 3: "vertical-line-center",
             4: "annotation-charref-alias", 5: "timestamp-span-nesting", 6: "charref-legacy-names-only",
-            7: "ruby-structure", 8: "cue-without-payload"}
-CLAUSES = {1: "S printer and harness printer disagree (harness defect)", 2: "to_model raised", 3: "number of paragraphs differs from the number of cues",
+            7: "ruby-structure"}
+CLAUSES = {1: "S printer and harness printer disagree (harness defect)", 2: "to_model raised", 3: "number of paragraphs differs from the number of cues that have a payload",
            10: "begin/end differ from the printed timestamps", 20: "region leaves the root container or has a negative extent",
            21: "writing mode / text alignment / display alignment of the region is not what the cue settings call for",
            22: "the region edge fixed by the line setting is misplaced",
@@ -595,7 +595,7 @@ def main():
             else:
                 for st in sib: sets.insert(rng.randrange(len(sets) + 1), st)
         f = gen_file(rng, sets, trig)
-        if trig and rng.random() < 0.06:                                       # a cue without payload
+        if rng.random() < 0.05:                                                # a cue without payload: shows nothing, disturbs nothing
             j = rng.randrange(len(f[1]))
             if f[1][j][0] == "cue": c = f[1][j][1]; f[1][j] = ("cue", (c[0], c[1], c[2], c[3], []))
         gram.append(f)
